@@ -60,3 +60,42 @@ class ChunkedRaw(io.RawIOBase):
         b[:len(chunk)] = chunk
         self.log.append(len(chunk))
         return len(chunk)
+
+
+def seekable_sources(data: bytes, workdir: str):
+    """Buffered seekable sources as the documented input contract allows them: [(name, opener)].
+    The stream may start at a non-zero offset of the underlying file, the buffer may be tiny, the data may straddle the
+    buffer boundary, and a gzip file may consist of several members."""
+    import gzip  # noqa: PLC0415
+    import os  # noqa: PLC0415
+
+    p = os.path.join(workdir, "s.jelly")
+    with open(p, "wb") as f:
+        f.write(data)
+    with gzip.open(p + ".gz", "wb") as f:
+        f.write(data)
+    with open(p + ".2.gz", "wb") as f:                      # two gzip members: the first holds only the first two bytes of the stream
+        f.write(gzip.compress(data[:2]) + gzip.compress(data[2:]))
+    pre = b"# some container header\n"
+    with open(p + ".pre", "wb") as f:
+        f.write(pre + data)
+    edge = io.DEFAULT_BUFFER_SIZE - 2
+    with open(p + ".edge", "wb") as f:
+        f.write(b"x" * edge + data)
+
+    def at(path, off, **kw):
+        def opener():
+            fh = open(path, "rb", **kw)
+            fh.seek(off)
+            return fh
+        return opener
+
+    def bio_at():
+        b = io.BytesIO(pre + data)
+        b.seek(len(pre))
+        return b
+
+    return [("BytesIO", lambda: io.BytesIO(data)), ("BytesIO-at-offset", bio_at),
+            ("BufferedReader", at(p, 0)), ("BufferedReader-16", at(p, 0, buffering=16)), ("BufferedReader-2", at(p, 0, buffering=2)),
+            ("BufferedReader-at-offset", at(p + ".pre", len(pre))), ("BufferedReader-at-buffer-edge", at(p + ".edge", edge)),
+            ("gzip", lambda: gzip.open(p + ".gz", "rb")), ("gzip-two-members", lambda: gzip.open(p + ".2.gz", "rb"))]
